@@ -161,7 +161,7 @@ func TestC11(t *testing.T) {
 		realServer(t, r)
 	}
 	r.Require("polls_ok", "polls_failed", "changes_forward", "changes_backward", "changes_inside_window", "expired_with_handle_polls",
-		"cadence_rounds", "cadence_cases_with_slow_service", "cadence_cases_with_an_outage", "parked_cache_write_cases", "ticker_overlap_cases", "coalesced_refreshes", "coalesced_with_cancelled_leader", "coalesced_after_a_joiner_gave_up", "polls_with_cache_down", "real_server_refreshes", "final_convergence_checks")
+		"cadence_rounds", "cadence_cases_with_slow_service", "cadence_cases_with_an_outage", "parked_cache_write_cases", "ticker_overlap_cases", "coalesced_refreshes", "coalesced_with_cancelled_leader", "coalesced_after_a_joiner_gave_up", "polls_with_cache_down", "real_server_refreshes", "real_server_empty_values", "final_convergence_checks")
 	r.Rule("A: seeded histories of 8-25 events over 2-5 secrets (declared, looked-up, expiry-aged with a live unread handle): service changes (new version / re-activate an older one / bursts), Refresh with per-request failure and hold scripts (service changes inside the held window), sleeps up to several expiry ages, handle probes; oracle after every Refresh on the cache payload and at probes on handles. Plus cadence cases (background poller, instant service), coalescing cases (K refreshes while the first request is parked) and B: real server+client histories. Distinct = (event kind, poll outcome, backwards?, held?, expiry shape)")
 }
 
@@ -671,6 +671,10 @@ func realServer(t *testing.T, r *evid.Run) {
 		put := func(n string) {
 			inst++
 			op := ops.Op{Kind: ops.Put, Name: n, Value: []byte(fmt.Sprintf("%s-%d", n, inst))}
+			if inst > len(names) && inst%5 == 0 {
+				op.Value = []byte{} // an empty value is a value (a feature switched off, a cleared password)
+				r.Count("real_server_empty_values", 1)
+			}
 			ops.ApplyModel(m, nil, true, op)
 			ops.ApplyReal(d, su, op)
 		}
